@@ -206,7 +206,7 @@ func runS(c *kit.Ctx, r *kit.Rand) {
 }
 
 func partS(c *kit.Ctx) int {
-	n := 150
+	n := 100
 	if c.Thorough() {
 		n = 1500
 	}
